@@ -697,7 +697,11 @@ PPL::Grid::relation_with(const Constraint& c) const {
       {
         if (first_point == nullptr) {
           first_point = &g;
-          const int sign = Scalar_Products::sign(c, g);
+          // Note: the reduced scalar product has to be used for strict
+          // inequalities, so as to disregard the epsilon coefficient.
+          const int sign = c.is_strict_inequality()
+            ? Scalar_Products::reduced_sign(c.expr, g.expr)
+            : Scalar_Products::sign(c, g);
           if (sign == 0) {
             point_saturates = !c.is_strict_inequality();
           }
